@@ -153,6 +153,12 @@ func (p *Plenc) CodecForTypeRegistry(registry plenccodec.CodecRegistry, typ refl
 				// there would be no way to tell where one element ends.
 				return nil, fmt.Errorf("slices of slices of structs or strings are not supported")
 			}
+			for pc, ok := subc.(plenccodec.PointerWrapper); ok; pc, ok = pc.Underlying.(plenccodec.PointerWrapper) {
+				if _, ok := pc.Underlying.(plenccodec.ProtoSliceWrapper); ok {
+					// A pointer adds no framing, so the same applies to pointers to such slices.
+					return nil, fmt.Errorf("slices of pointers to slices of structs or strings are not supported")
+				}
+			}
 			if p.ProtoCompatibleArrays || tag == "proto" {
 				// When writing we just want to repeat the encoding of an
 				// individual element within the slice as if it was a separate
